@@ -667,6 +667,48 @@ func expectedName(name, sep string) (string, bool) {
 	return strings.Join(segs, "/"), true
 }
 
+// wSafeRel restates http/server.go isSafeRelPath (Lean: Sts.Wire.safeRel).
+func wSafeRel(name string) bool {
+	if name == "" || strings.HasPrefix(name, "/") {
+		return false
+	}
+	named := false
+	for _, seg := range strings.Split(name, "/") {
+		switch seg {
+		case "..":
+			return false
+		case "", ".":
+		default:
+			named = true
+		}
+	}
+	return named
+}
+
+// unsafeNames: the negation of Props/C13 SafeNames for the descriptors of a request — the name and
+// the predecessor as the receiver sees them (split on the sender's separator, joined and cleaned),
+// the rename target as sent.
+func unsafeNames(ds []wDesc, sep string) (bool, string) {
+	conv := func(n string) string {
+		if sep == "" {
+			return n
+		}
+		return filepath.Join(strings.Split(n, sep)...)
+	}
+	for _, d := range ds {
+		if !wSafeRel(conv(d.Name)) {
+			return true, d.Name
+		}
+		if d.Renamed != "" && !wSafeRel(d.Renamed) {
+			return true, d.Renamed
+		}
+		if c := conv(d.Prev); c != "" && !wSafeRel(c) {
+			return true, d.Prev
+		}
+	}
+	return false, ""
+}
+
 func (e *wireExec) checkDesc(what string, got wDesc, want wDesc, sep string) {
 	if n, ok := expectedName(want.Name, sep); ok && got.Name != n {
 		e.fail("descriptor-differs: %s name %q, sent %q (sep %q)", what, got.Name, want.Name, sep)
@@ -700,6 +742,7 @@ type reqParams struct {
 	hdr, data      []byte
 	fullLen        int
 	conformingBody bool
+	cutCompressed  bool // putgz: the compressed stream is cut, the header may or may not arrive
 }
 
 func (e *wireExec) mkReq(src, ml, cut, endk, extra string) (*reqParams, bool) {
@@ -744,6 +787,19 @@ func (e *wireExec) mkReq(src, ml, cut, endk, extra string) (*reqParams, bool) {
 func (e *wireExec) oracleRequest(op string, rp *reqParams, status string, g *wGK, sepHdr string) {
 	if status == "hang" {
 		e.fail("header-hang: %s: the request was never answered", op)
+		return
+	}
+	// Props/C13 unsafe_name_refused: a part whose converted name, raw rename target or converted
+	// predecessor fails the data route's confinement check makes the request non-conforming: no
+	// gatekeeper call at all, and 400 as soon as the header decodes.
+	if bad, which := unsafeNames(rp.ds, sepHdr); bad {
+		if g.preps > 0 || len(g.recvs) > 0 {
+			e.fail("unsafe-name-accepted: %s: %q reached the gatekeeper (%d Prepare, %d Receive calls)", op, which, g.preps, len(g.recvs))
+		}
+		hasBody := rp.gz >= 0 || len(rp.data) > 0 || rp.broken
+		if rp.exactML && !rp.cutCompressed && len(rp.data) >= len(rp.hdr) && hasBody && status != "400" {
+			e.fail("unsafe-name-accepted: %s: request naming %q answered %s, expected 400", op, which, status)
+		}
 		return
 	}
 	slices := e.slicesOf(rp.src)
@@ -1211,6 +1267,7 @@ func (e *wireExec) Do(op []string) string {
 		defer g.mu.Unlock()
 		// the stream may be cut anywhere: only the unconditional clauses of the oracle apply
 		rp.conformingBody = false
+		rp.cutCompressed = true
 		e.oracleRequest("putgz", rp, status, g, "/")
 		wireGKs.Delete(src)
 		g.recvs, g.prep = nil, nil
@@ -1490,6 +1547,14 @@ func (wireComp) Corpus() [][]string {
 		{"sep / a//b/./c/../d/", "sep %5c a%5cb%5c%5cc", "sep %5c /etc/x%5cy", "sep / ../../x", "sep / -", "sep %5c x/y%5cz",
 			"nano 12+034", "nano 1+2+3", "nano 1.5", "nano -", "nano -5+-7", "nano +5+3", "nano 9223372036854775808+0",
 			"nano 1_0+0", "nanoenc -1 -1", "nanoenc 1700000000 999999999", "nanoenc 0 0", "nanoenc 5 1500000000"},
+		// names that would leave the receiver's directories: 400, no Prepare / Receive
+		{wPartLine("trailing/", `a\..\b`, "..", "h", 1, 2, 9, 0, 3, 9, 1), "http stub 5", "put stub / -1 x -1 c 0 0 real", "put stage / 6 x -1 c 0 0 real",
+			"put stub %5c -1 x -1 c 0 0 real", "decx / x -1 c 0 real 0 3"},
+		{wPartLine("ok", "", "", "h", 1, 2, 9, 0, 3, 9, 1), wPartLine("../up", "", "ok", "h", 1, 2, 9, 0, 3, 9, 2),
+			"put stage / -1 x -1 c 0 0 real", "http stage 0", "put stub / -1 x 50 c 0 0 real", "put stub / -1 d2 -1 c 0 0 real"},
+		{wPartLine("", "", "", "h", 1, 2, 9, 0, 3, 9, 1), "put stub / -1 x -1 c 0 0 real", "put stub - -1 x -1 c 0 0 real", "http stub 0"},
+		{wPartLine("a", "/abs", "", "h", 1, 2, 9, 0, 3, 9, 1), "put stub / -1 x -1 c 0 0 real", "http stub 2"},
+		{wPartLine("a/../b", "", "./.", "h", 1, 2, 9, 0, 3, 9, 1), "put stub / -1 x -1 c 0 0 real", "put stub - -1 x -1 c 0 0 real", `put stub %5c -1 x -1 c 0 0 real`},
 		// S11 (known finding): meta-len <= 0 or larger than the header
 		with(two, "put stage / -1 a0 -1 c 0 0 real", "put stub / -1 a0 -1 c 0 0 real", "put stage / -1 a-5 -1 c 0 0 real",
 			"decx / a0 -1 c 0 real 0 4"),
